@@ -127,6 +127,9 @@ def same(ctx, rep):
             Ga, _ = c10.call_graph(a0)
             Gb, _ = c10.call_graph(b0)
             owners = {c10.attributed_owner(a0, Ga, fn), c10.attributed_owner(b0, Gb, fn)}
+            nested = [b_ for b_ in BOUNDARY if fn.startswith(b_ + "::")]
+            if nested:
+                owners = set(nested)        # an item declared inside a boundary function (a table, an inner fn) is part of it
             if owners <= set(BOUNDARY):
                 rep.ob("C16.same", "K1=K2|" + fn + "|moved-boundary-code", True, "new helper differing between the back ends is reached only from the boundary function %s" % sorted(owners))
                 continue
